@@ -307,6 +307,7 @@ def mesh_entry(T, rays_np, hit_triangles):
         rr, nn_ = mesh.mirror(torch.tensor(rays_np, dtype=torch.float32))
         real.leaf = mesh.heights
         return torch.cat((rr.reshape(-1), nn_.reshape(-1)))
+    real.leaves = lambda: [real.leaf]
     e = Entry('planar_mesh_mirror', 'mesh', [('h', (2, 2, 1))], outs_r + outs_n, real,
               nonsmooth=['ray hits an edge or a vertex of the mesh', 'ray parallel to a facet'],
               note='hit pattern %r read off the real function at the sample heights' % (hit_triangles,),
